@@ -4,7 +4,8 @@ M-TEXT (part 2): key/id normalisation (both copies), the text → LockCommand co
 `protocol/textcommand.go` and the LOCK/UNLOCK result renderers.  Core Lean only.
 
 Every Go index expression `args[k]` is a CHECKED access (`idx`) whose failure is the outcome `panic`;
-the Go length guards are modelled exactly as written (`i+i >= len(args)`, `len(args) < 3` before `args[3]`, …).
+the Go length guards are modelled exactly as written (after the repairs "fix: ConvertArgs2Flag checks i+1 …" and
+"fix: SETEX/PSETEX require 4 arguments …": `i+1 >= len(args)`, `len(args) < 4` before `args[3]`).
 `strings.ToUpper` is modelled on ASCII letters (keywords are ASCII; the two non-ASCII runes whose upper case is an
 ASCII letter, U+0131 and U+017F, are outside the model and outside the harness generators).
 -/
@@ -326,7 +327,7 @@ def argsFlag (fuel : Nat) (tail : List Bytes) (i : Nat) (h : Hdr) : FlagOut :=
     | some kw =>
       let k := upper kw
       let valued (cls : String) (f : Int → Hdr) : FlagOut :=
-        if i + i ≥ tail.length then .err "Args_Count"      -- sic: `i+i`, not `i+1`
+        if i + 1 ≥ tail.length then .err "Args_Count"
         else match idx tail (i + 1) with
           | none => .panic                                   -- args[i+1] out of range
           | some v =>
@@ -412,11 +413,11 @@ def convSetNX (ctx : Ctx) (args : List Bytes) : Conv :=
   | _, _ => .panic
 
 def convSetEX (ctx : Ctx) (args : List Bytes) : Conv :=
-  if args.length < 3 then .err "Args_Count" else        -- sic: 3, although args[3] is used
+  if args.length < 4 then .err "Args_Count" else
   match idx args 0, idx args 1, idx args 2 with
   | some a0, some a1, some a2 =>
     match idx args 3 with
-    | none => .panic                                      -- args[3] out of range when len(args) == 3
+    | none => .panic                                      -- args[3] (unreachable: len(args) ≥ 4)
     | some a3 =>
       let h := keyHdr ctx C.COMMAND_LOCK (C.LOCK_FLAG_UPDATE_WHEN_LOCKED ||| C.LOCK_FLAG_CONTAINS_DATA) a1
       match atoi a2 with
